@@ -21,6 +21,7 @@ def classify(case, obs):
 
 WALKER = dict(bin="walker", driver_cmd=["python3", "lib/null_driver.py"], case_seconds=20)
 CSTR = dict(bin="cstrfmt", driver="cstrfmt_driver", model_ml="cstrfmt_model", extract=["CStrFmt"], case_seconds=3)
+UTIL = dict(bin="util", driver="util_driver", model_ml="util_model", extract=["Util"], case_seconds=20)
 
 CONFIG = dict(
 
@@ -29,6 +30,7 @@ CONFIG = dict(
     extract=["CStrFmt"],
     release_in_quick=True,
     components=[
+        dict(name="util", cfg=UTIL, quick_cases=1500, thorough_cases=100000),
         dict(name="walker", cfg=WALKER, quick_cases=1200, thorough_cases=80000),
         dict(prop="C05", quick_cases=600, thorough_cases=60000),
         dict(prop="C07", quick_cases=600, thorough_cases=60000),
